@@ -39,6 +39,8 @@ pub enum Profile {
     Iter,
     /// C15 base histories: tti + tight capacities
     Pure,
+    /// C05 / C06: more expired entries pending than one maintenance batch purges
+    Bulk,
 }
 
 impl Profile {
@@ -57,6 +59,7 @@ impl Profile {
             "sketchapi" => Profile::SketchApi,
             "iter" => Profile::Iter,
             "pure" => Profile::Pure,
+            "bulk" => Profile::Bulk,
             _ => return None,
         })
     }
@@ -77,6 +80,26 @@ pub fn gen_config(rng: &mut Rng, profile: Profile) -> Config {
             }
         }
     };
+    if profile == Bulk {
+        let d = *rng.pick(&[1u64, 1000, SEC]);
+        let (ttl, tti) = match rng.below(3) {
+            0 => (Some(d), None),
+            1 => (None, Some(d)),
+            _ => (Some(d), Some(d * 2)),
+        };
+        let keys = *rng.pick(&[120u32, 150, 250, 600]);
+        return Config {
+            kind,
+            cap: if rng.chance(1, 2) { None } else { Some(100_000) },
+            weigher: false,
+            ttl,
+            tti,
+            hasher: HashMode::Mix(rng.below(1000)),
+            density: if rng.chance(1, 2) { Density::Every } else { Density::Sparse },
+            keys,
+            initial_capacity: None,
+        };
+    }
     let keys = match profile {
         Lru | Admission | Capacity => rng.range(3, 10) as u32,
         _ => *rng.pick(&[2u32, 3, 4, 4, 5, 6, 8, 12]),
@@ -228,6 +251,12 @@ impl Gen {
             return op;
         }
         use Profile::*;
+        if self.profile == Bulk {
+            self.make_bulk_script(cfg, truth, now);
+            if let Some(op) = self.script.pop_front() {
+                return op;
+            }
+        }
         let nkeys = cfg.keys;
         let sync_sparse = cfg.kind == Kind::Sync && cfg.density == Density::Sparse;
         let unsync = cfg.kind == Kind::Unsync;
@@ -246,6 +275,7 @@ impl Gen {
             SketchApi => [22, 30, 8, 6, 6, 3, 3, 6, 6, 4],
             Iter => [28, 16, 6, 18, 6, 3, 3, 10, 5, 4],
             Pure => [28, 26, 0, 0, 5, 2, 2, 12, 0, 10],
+            Bulk => [10, 40, 25, 5, 2, 0, 0, 10, 5, 0],
         };
         if !unsync {
             w[6] = 0;
@@ -286,6 +316,38 @@ impl Gen {
                 self.make_script(cfg, truth, now);
                 self.script.pop_front().unwrap_or(Op::Get { k })
             }
+        }
+    }
+
+    /// Bulk: insert all keys in one go, let them all pass their deadline without any operation
+    /// in between, then probe keys from everywhere in the insertion order.
+    fn make_bulk_script(&mut self, cfg: &Config, truth: &Truth, now: u64) {
+        if !truth.keys.is_empty() {
+            return; // already filled: continue with random probes
+        }
+        let n = cfg.keys;
+        for k in 0..n {
+            let vid = self.vid();
+            self.script.push_back(Op::Insert { k, vid, w: 1 });
+        }
+        if self.rng.chance(1, 3) {
+            // refresh a few so that deadlines are staggered
+            for _ in 0..5 {
+                let k = self.rng.below(n as u64) as u32;
+                self.script.push_back(Op::Get { k });
+            }
+        }
+        let d = cfg.ttl.unwrap_or(u64::MAX).min(cfg.tti.unwrap_or(u64::MAX));
+        let _ = now;
+        self.script.push_back(Op::Advance { ns: match self.rng.below(3) { 0 => d, 1 => d + 1, _ => d.saturating_mul(3) } });
+        for _ in 0..self.rng.range(4, 12) {
+            // from the newest end as well as from the oldest
+            let k = if self.rng.chance(1, 2) { n - 1 - self.rng.below(20.min(n as u64)) as u32 } else { self.rng.below(n as u64) as u32 };
+            self.script.push_back(match self.rng.below(3) {
+                0 => Op::Get { k },
+                1 => Op::Contains { k },
+                _ => Op::Iter,
+            });
         }
     }
 
